@@ -150,3 +150,13 @@ Example sound_nonvacuous :
   eval (fun v => Nat.eqb v 0) (fun _ => true) (SAnd (SAnd (SOpq 0) (SChk 1 false)) (SDer 0 7)) = Panic 7 /\
   reported (SAnd (SAnd (SOpq 0) (SChk 1 false)) (SDer 0 7)) = [7].
 Proof. repeat split. Qed.
+
+(* what follows the statement is untouched by the checks inside the expression (finding F100, repaired) *)
+Theorem after_survives : forall e after c, In c after -> In c (proc_stmt e after).
+Proof. intros e after c H. unfold proc_stmt. apply in_or_app. right. exact H. Qed.
+
+(* ... which was false of the code before the repair: `b := c && p != nil; return p.f` *)
+Example before_F100_refuted :
+  proc_stmt_before_F100 (SAnd (SOpq 0) (SChk 0 false)) [(0, 9)] = [] /\
+  proc_stmt (SAnd (SOpq 0) (SChk 0 false)) [(0, 9)] = [(0, 9)].
+Proof. split; reflexivity. Qed.
